@@ -59,6 +59,10 @@ AccOf(kind) == CASE kind = "AH" -> -500
                  [] kind = "ROT" -> -900
 AccSame  == -1100
 AccAlg   == -900      \* matrix identities of the fitted state, Hermite orthonormality
+\* sum of psi_n H_n(y) recomputed from the public coefficients against transformToRawValue: an alternating
+\* series of up to 40 terms, cancellation measured 1.4e-9 of the spread at order 40
+AccSeries == -600
+AlgAcc(name) == IF name = "psi-explains" THEN AccSeries ELSE AccAlg
 ExactZero == -9999    \* code of an error that is exactly 0
 
 -----------------------------------------------------------------------------
@@ -136,6 +140,7 @@ Rot(g) ==
     [] g = 10 -> [dim |-> 3, den |-> 5, m |-> << <<3, -4, 0>>, <<4, 3, 0>>, <<0, 0, 5>> >>]  \* 3-4-5 about z
     [] g = 11 -> [dim |-> 3, den |-> 1, m |-> << <<1, 0, 0>>, <<0, 1, 0>>, <<0, 0, 1>> >>]   \* identity 3-D
 
+Rng(f) == {f[i] : i \in DOMAIN f}
 Abs(x) == IF x < 0 THEN -x ELSE x
 RECURSIVE GCD(_, _)
 GCD(a, b) == IF b = 0 THEN a ELSE GCD(b, a % b)
